@@ -11,6 +11,7 @@ import (
 )
 
 var progCache sync.Map
+var progCacheMu sync.Mutex
 
 func progOf(re *regexp.Regexp) *syntax.Prog {
 	if p, ok := progCache.Load(re.String()); ok {
